@@ -74,6 +74,10 @@ def build_docs(rng, n_create, n_delete, n_other, n_replace, two_ids, dup_ids=Fal
         if numeric:
             docs[j] = docs[j].replace('<roID>12</roID>', rng.choice(['<roID>012</roID>', '<roID>+12</roID>', '<roID>12.0</roID>']), 1)
         docs[j] = docs[j].replace('<roID>RO</roID>', rng.choice(['<roID>OTHER</roID>', '<roID />', '<roID> RO</roID>', '<roID>ro</roID>']), 1)
+    if rng.random() < 0.5:
+        # text outside ASCII somewhere in some of the documents (a comment, a slug): irrelevant to what a collection is
+        docs = [d.replace('<mos>', '<mos><!-- Caf\u00e9 \u2615 n\u00ba %d -->' % k_, 1) if rng.random() < 0.6 else d
+                for k_, d in enumerate(docs)]
     if rng.random() < 0.3:
         # the messages of one running order may come from different senders (a stand-by NCS after a fail-over,
         # several MOS devices): irrelevant to what a collection is
